@@ -121,6 +121,7 @@ class FaultPlan(object):
         self.fired_n = 0
         self.target = None
         self.active = True
+        self.hits = []  # (task, seam sequence number) of every injected error
 
     def clear(self):
         self.active = False
@@ -135,6 +136,11 @@ class Run(object):
         self.prefix = self.sandbox + os.sep
         self.store_prefix = os.path.join(self.sandbox, "store") + os.sep
         self.store_root = os.path.join(self.sandbox, "store")
+        # what tempfile.gettempdir() answers while this run is alive: a directory OUTSIDE the store root
+        # and (as in the usual deployment) on another file system: a rename between it and the store
+        # fails with EXDEV.  Using it is recorded as an escape (C18) but not refused.
+        self.exttmp = os.path.join(self.sandbox, "exttmp")
+        self.ext_prefix = self.exttmp + os.sep
         self.seed = seed
         self.blksize = blksize
         self.write_through = write_through
@@ -224,11 +230,13 @@ class Run(object):
                         fp.fired_n = 1
                         fp.target = path
                         fp.count += 1
+                        fp.hits.append((task, self.seq))
                         raise OSError(fp.err, os.strerror(fp.err) + " [injected]", path)
                     fp.count += 1
             elif fp.persistent and path == fp.target and kind in fp.kinds and kind != "close-w" and \
                     not (fp.persistent == "noremove" and kind == "remove"):
                 fp.fired_n += 1
+                fp.hits.append((task, self.seq))
                 raise OSError(fp.err, os.strerror(fp.err) + " [injected]", path)
         # scheduler
         s = self.sched
@@ -325,7 +333,15 @@ def _escape(run, op, ap):
     raise PermissionError(_errno.EACCES, "simulator containment: %s outside store root" % op, ap)
 
 
+def _in_ext(run, ap):
+    return ap.startswith(run.ext_prefix) or ap == run.exttmp
+
+
 def _check_contained(run, op, ap):
+    if _in_ext(run, ap):
+        if not any(e[1] == ap for e in run.escapes):
+            run.escapes.append((op + ":system-tmp-dir", ap))
+        return
     if not (ap.startswith(run.store_prefix) or ap == run.store_root):
         # input files live in <sandbox>/input and are only ever read by the store
         _escape(run, op, ap)
@@ -421,6 +437,9 @@ def _mk_rename(name):
         _check_contained(run, name, asrc)
         # the event's path is the destination (C13: "persistent for that destination")
         run.event("rename", name, adst, extra=run.rel(asrc))
+        if _in_ext(run, asrc) != _in_ext(run, adst):
+            run.counts["exdev"] = run.counts.get("exdev", 0) + 1
+            raise OSError(_errno.EXDEV, "Invalid cross-device link [simulated: system tmp dir is another file system]", src)
         _tl.depth += 1
         try:
             return real(src, dst, *a, **kw)
